@@ -15,7 +15,8 @@
 (*          needs no model of path resolution.                             *)
 (*  Access  args = the situation chosen by TLC, st = what the security     *)
 (*          module really had configured, obs[via].ran = whether any       *)
-(*          (stubbed) endpoint handler was invoked                         *)
+(*          (stubbed) endpoint handler was invoked, obs[via].answers = the *)
+(*          values the site hook really returned when it was consulted     *)
 (*            via "render"  DynamicContent.render(request)                 *)
 (*            via "http"    through Site / routing tree                    *)
 (* A failing clause is printed, never aborts (verdicts are total);         *)
@@ -61,7 +62,9 @@ Clauses(r, x) ==
 Drifts(r, x) ==
     IF r.ev = "Static"
     THEN \E v \in StaticVias : Done(r, v) /\ Found(r, v) # ImplServed(x)
-    ELSE \E v \in AccessVias : r.obs[v].ran # ImplRan(x)
+    ELSE \E v \in AccessVias : \/ r.obs[v].ran # ImplRan(x)
+                                \/ (IsSite(x) /\ Routable(x.m) /\ ToSet(r.obs[v].answers) # {Answer(x)})
+                                        \* the site hook was consulted and said what the model says
 
 Check(t, i) ==
     LET r == Rec(t, i) IN
